@@ -12,9 +12,9 @@ for seed in $(seq $from $to); do
   for p in $ids; do
     out=$(VERIF_ROOT=$root VERIF_SEED=$seed PKSIM_PROFILE=checked $root/pksim check $p --tier $tier 2>&1); rc=$?
     if [ $rc -ne 0 ]; then bad=$((bad+1)); echo "SEED $seed $p exit $rc"; echo "$out" | grep -E "clause|detail|HARNESS" | cut -c1-600; fi
-    if [ $p = C06 ] && [ -x $root/pksim-testable ]; then
-      out=$(VERIF_ROOT=$root VERIF_SEED=$seed PKSIM_PROFILE=checked PKSIM_EVIDENCE_SUFFIX=testable $root/pksim-testable check $p --tier $tier 2>&1); rc=$?
-      if [ $rc -ne 0 ]; then bad=$((bad+1)); echo "SEED $seed $p (testable build) exit $rc"; echo "$out" | grep -E "clause|detail|HARNESS" | cut -c1-600; fi
+    if { [ $p = C06 ] || [ $p = C02 ] || [ $p = C03 ]; } && [ -x $root/pksim-testable ]; then
+      out=$(VERIF_ROOT=$root VERIF_SEED=$seed PKSIM_PROFILE=checked PKSIM_EVIDENCE_SUFFIX=allfeat $root/pksim-testable check $p --tier $tier 2>&1); rc=$?
+      if [ $rc -ne 0 ]; then bad=$((bad+1)); echo "SEED $seed $p (all-features build) exit $rc"; echo "$out" | grep -E "clause|detail|HARNESS" | cut -c1-600; fi
     fi
   done
 done
